@@ -13,11 +13,11 @@ TECHNIQUE = ('property-based testing (Hypothesis): substitution-metamorphic '
              'placeholder run and runs with generated special strings, '
              'executed by ' + ('GNU Make + /bin/sh' if BACKEND == 'make' else
                                'the reference Ninja evaluator + /bin/sh'))
-RULE = ('One script template with 37 argument positions (command/cmds words, '
+RULE = ('One script template with 39 argument positions (command/cmds words, '
         'environment values of command/build_step/test/test_driver, nested '
         'test-driver children, compile/link options in list and string form, '
         'global options, define values, include/library directory names, '
-        'CFLAGS/CPPFLAGS/LDFLAGS/LDLIBS taken from the environment); 3..37 '
+        'CFLAGS/CPPFLAGS/LDFLAGS/LDLIBS taken from the environment); 3..39 '
         'positions per case receive strings from an alphabet weighted towards '
         'Make-, sh- and Ninja-special characters, non-ASCII and a curated '
         'token list (no NUL/CR/LF).  Non-trivial: some argument contains a '
